@@ -3,6 +3,6 @@ CONSTANTS
   Base = 0
   Alpha = 3
   MaxLen = 6
-  ExportOn = FALSE
-INVARIANTS Binding Collides RootsAgree
+  ExportOn = TRUE
+INVARIANTS Binding Collides RootsAgree Export
 CHECK_DEADLOCK FALSE
